@@ -261,6 +261,25 @@ func flushRT(em *Emitter) {
 		curPStr, curHasP = p.pstr, p.hasP
 		emitRTNow(em, p.ts, p.ent, p.how, p.enc)
 	}
+	// the caller rearranges a token slice it has already asked an index for, in place (same backing array, same length):
+	// the next index is that of the tokens the slice holds NOW
+	for k, p := range rtBatch {
+		if len(p.ts) < 2 || k%2 == 1 {
+			continue
+		}
+		ts := p.ts
+		func() {
+			defer func() { recover() }()
+			_ = ts.Kind() // asked just before the edit ...
+			ts.MakeIndices()
+		}()
+		ts[0], ts[1] = ts[1], ts[0]
+		if k > 0 && len(rtBatch[k-1].ts) > 0 {
+			ts[len(ts)-1] = rtBatch[k-1].ts[0]
+		}
+		curWant, curHasP = nil, false
+		emitRTNow(em, ts, p.ent, "edited-in-place", encode(ts))
+	}
 	rtBatch = nil
 }
 
@@ -279,8 +298,15 @@ func emitRTNow(em *Emitter, ts spg.Tokens, ent float32, how string, enc EncRes) 
 		str = curPStr // what Password.String() returned: the string a caller stores next to the index
 	}
 	dec := DecRes{Kind: "none", Toks: []TokJ{}}
+	dec2 := DecRes{Kind: "none", Toks: []TokJ{}}
 	if enc.Kind == "ok" {
 		dec = decode(str, enc.Idx, ent)
+		// the same string and index decoded again at once with ANOTHER entropy: the entropy is an argument, not part of what is decoded
+		other := ent + 1.5
+		if math.IsNaN(float64(ent)) || ent == 0 {
+			other = 21.75
+		}
+		dec2 = decode(str, enc.Idx, other)
 	}
 	want := curWant
 	if want == nil {
@@ -291,6 +317,6 @@ func emitRTNow(em *Emitter, ts spg.Tokens, ent float32, how string, enc EncRes) 
 			want[i].V = []int{}
 		}
 	}
-	em.Emit(map[string]interface{}{"op": "rt", "how": how, "want": want, "toks": TokJs(ts), "str": CPs(str), "kindGo": int(ts.Kind()), "enc": enc, "dec": dec,
+	em.Emit(map[string]interface{}{"op": "rt", "how": how, "want": want, "toks": TokJs(ts), "str": CPs(str), "kindGo": int(ts.Kind()), "enc": enc, "dec": dec, "dec2": dec2,
 		"atoms": CPsList(ts.Atoms()), "seps": CPsList(ts.Separators())})
 }
